@@ -57,6 +57,7 @@ type Unit struct {
 	lits           map[string]Term
 	litVal         map[string]string // literal constant name -> its text
 	havocSeq       int
+	roMaps         map[string]bool // constants naming read-only map globals
 	keepProved     bool
 	havocMemo      map[string]Term
 	obs            map[string]*Oblig
